@@ -23,13 +23,17 @@ MANIFEST = {
             "kernel-decided obligation that each call site's try blocks (REGENERATED from the three compliance_check_*.py modules) catch "
             "every exception the call can raise on an arbitrary file; and, given the kernel-decided completeness of AASDataChecker's "
             "coverage table (REGENERATED from examples/data/_helper.py), a passing comparison implies the two values are identical at "
-            "every depth — any single differing attribute makes it fail. Tie: real check functions on valid / damaged / garbage files "
-            "vs the script model; real AASDataChecker verdicts on equal pairs and single-attribute mutations vs the coverage model.",
+            "every depth — any single differing attribute makes it fail; collections whose members are matched by key (qualifiers, "
+            "extensions, members of submodels / collections / entities, the identifiables of the two files) compare equal iff one is a "
+            "rearrangement of the other, for collections of any size, and the verdict never depends on the order of either side "
+            "(c20_element_order_irrelevant, c20_unordered_verdict; unique keys per collection are C01's / C13's invariant). Tie: real check functions on valid / damaged / garbage files "
+            "vs the script model; real AASDataChecker verdicts on equal pairs and single-attribute mutations vs the coverage model, and on independently shuffled keyed collections with a "
+            "missing / extra / re-keyed / changed member vs the keyed-matching model.",
     "note": "PARTIAL for arbitrary byte strings: which exceptions json / lxml / zipfile raise on them is the SPEC column `raisable` "
             "(exercised by the garbage stream, not proved); 'SDK-written files pass' rests on C05/C09; unordered SubmodelElementLists "
             "cannot be compared by the checker (known finding)",
     "technique": "Lean 4 proof: step-script totality from decided catch coverage, worst-status fold, checker soundness from decided "
-                 "attribute coverage; differential correspondence; mutation oracle",
+                 "attribute coverage, permutation invariance and exactness of the keyed matching (induction over lists, List.Perm); differential correspondence; mutation oracle",
 }
 ASSUMPTIONS = [
     "exception kinds of json.load / etree.parse / AASXReader / read_into on arbitrary files are the spec column `raisable` of the script table",
@@ -267,6 +271,13 @@ def correspond(ctx: C.Ctx, cov: C.Coverage) -> List[C.Disagreement]:
             cov.hit("checker:" + ("equal" if what is None else "mutated"))
             if what:
                 cov.nontrivial.add(f"{what[0]}.{what[1]}")
+        # keyed (unordered) collections: members matched by key; order, missing / extra / re-keyed / changed members
+        for kind, lc, ha, hb, ma, mb, what in keyed_cases(ctx.seed, ctx.budget(240, 3000)):
+            for x, y in ((ha, hb), (hb, ha)):
+                lines.append(keyed_line(T, kind, lc, x, y)); expect.append(("verdict", keyed_real(kind, x, y))); meta_.append(("keyed", (kind, what)))
+            cov.evaluations += 1
+            cov.hit("keyed:" + kind + ":" + ("same" if all(w.startswith("order") or w == "same" for w in what.split(",")) else "differs"))
+            cov.nontrivial.add(f"keyed:{kind}:{what}:{len(ma)}:{len(mb)}")
         # overall status: EVERY list of up to 4 step statuses, through the public state manager API
         for sts in status_lists(4 if ctx.tier == "quick" else 6):
             lines.append(["overall", [STATUS_NAMES[s] for s in sts]]); expect.append(("overall", STATUS_NAMES[real_overall(sts)])); meta_.append(("overall", sts))
@@ -279,7 +290,7 @@ def correspond(ctx: C.Ctx, cov: C.Coverage) -> List[C.Disagreement]:
                     dis.append(C.Disagreement(f"overall status of steps {list(mt[1])}", {"statuses": list(mt[1])}, m, e[1]))
             elif e[0] == "verdict":
                 if m != e[1]:
-                    dis.append(C.Disagreement(f"AASDataChecker verdict on {'equal pair' if mt[1] is None else 'mutation of ' + str(mt[1])}",
+                    dis.append(C.Disagreement(f"AASDataChecker verdict on {'equal pair' if mt[1] is None else ('keyed collection ' if mt[0] == 'keyed' else 'mutation of ') + str(mt[1])}",
                                               {"pair": str(mt[1])}, m, e[1]))
             elif e[0] == "raise":
                 if not (m[0] == "raise" and m[1] == e[1]):
@@ -294,7 +305,9 @@ def correspond(ctx: C.Ctx, cov: C.Coverage) -> List[C.Disagreement]:
         cov.rule = ("files: SDK-written valid JSON/XML documents of generated identifiables, truncated / byte-flipped / non-UTF-8 variants, "
                     "fixed garbage and missing paths; each through check_schema and check_deserialization (real step list or exception vs "
                     "script model fed with the outcomes of the same external calls made directly). Checker: equal pairs and one changed "
-                    "attribute at a random node; real verdict vs coverage model. non-trivial = distinct (format, check, category, "
+                    "attribute at a random node; real verdict vs coverage model. Keyed collections (submodel elements, qualifiers, collection members, "
+                    "identifiables of a store; 0-6 members): both sides shuffled independently, optionally one member missing / extra / re-keyed / "
+                    "changed at any depth, both argument orders; real verdict vs checkKeyed fed with the members in the holders' iteration order. non-trivial = distinct (format, check, category, "
                     "outcomes) resp. distinct (class, attribute) mutated")
         cov.samples = [list(meta_[0][:4]), str(pairs[0][2])]
     finally:
@@ -719,6 +732,111 @@ def _real_verdict(a, b) -> Any:
     except Exception as e:
         return ["raise", type(e).__name__]
     return not any(True for _ in ch.failed_checks)
+
+
+# ----------------------------------------------------------------------------------------------- keyed collections
+
+def keyed_cases(seed: int, n: int):
+    """Pairs of files that differ in the ORDER of an unordered collection, and/or in one member (missing, extra, filed
+    under another key, one attribute changed at any depth).  Yields (kind, lenCheck, holder_a, holder_b, members_a,
+    members_b, what): the real verdict is taken on the holders (checked, expected), the model gets the members as
+    (key, value) pairs in the order in which the holders hold them."""
+    from basyx.aas import model as m
+    from vf import gen, canon
+    rng = random.Random(f"C20keyed:{seed}")
+    out = []
+    i = 0
+    while len(out) < n and i < 6 * n:
+        i += 1
+        kind = ("sme", "qual", "store", "smc")[i % 4]
+        tag = f"C20keyed:{seed}:{i}"
+        k = rng.randint(0, 5)
+
+        def members(t):
+            g = gen.Gen(random.Random(t), max_depth=3)
+            g.no_nan = True
+            if kind == "qual":
+                return [g.qualifier(f"q{j}{g.rng.choice(['', ' x', 'Ä'])}") for j in range(k)]
+            if kind == "store":
+                return [make_obj(f"{t}:{j}") for j in range(k)]
+            return [g.element(1) for _ in range(k)]
+        ma, mb = members(tag), members(tag)
+        if kind == "store":
+            ids = [x.id for x in ma]
+            if len(set(ids)) != len(ids):
+                continue
+        else:
+            ks = [(x.type if kind == "qual" else x.id_short) for x in ma]
+            if len(set(ks)) != len(ks):
+                continue
+        what = []
+        # one member changed / removed / added / filed under another key, on one side
+        r = rng.random()
+        side = rng.choice((ma, mb))
+        if side and r < 0.18:
+            side.pop(rng.randrange(len(side))); what.append("missing")
+        elif side and r < 0.36:
+            tgt = rng.choice(side)
+            w = mutate_attr(tgt, rng)
+            if w is None:
+                continue
+            what.append("changed:" + w[0] + "." + w[1])
+        elif side and r < 0.48 and kind in ("sme", "smc"):
+            tgt = rng.choice(side)
+            tgt.id_short = tgt.id_short + "X"; what.append("rekeyed")
+        elif r < 0.58 and kind != "store":
+            g2 = gen.Gen(random.Random(tag + ":extra"), max_depth=2)
+            g2.no_nan = True
+            side.append(g2.qualifier("qextra") if kind == "qual" else g2.element(2)); what.append("extra")
+        if rng.random() < 0.8:
+            rng.shuffle(ma); what.append("order-a")
+        if rng.random() < 0.8:
+            rng.shuffle(mb); what.append("order-b")
+        try:
+            if kind == "sme":
+                ha, hb = m.Submodel("urn:k", ma), m.Submodel("urn:k", mb)
+            elif kind == "qual":
+                ha, hb = m.Submodel("urn:k", qualifier=ma), m.Submodel("urn:k", qualifier=mb)
+            elif kind == "smc":
+                ha = m.Submodel("urn:k", [m.SubmodelElementCollection("c", ma)])
+                hb = m.Submodel("urn:k", [m.SubmodelElementCollection("c", mb)])
+            else:
+                ha, hb = m.DictObjectStore(ma), m.DictObjectStore(mb)
+        except Exception:
+            continue                       # two generated members under one key
+        if any(has_unordered_list_or_nan(x) for x in ma + mb):
+            continue
+        out.append((kind, kind == "qual", ha, hb, ma, mb, ",".join(what) or "same"))
+    return out
+
+
+def keyed_real(kind, ha, hb) -> Any:
+    from basyx.aas import model
+    from basyx.aas.examples.data._helper import AASDataChecker
+    ch = AASDataChecker(raise_immediately=False)
+    try:
+        if kind == "store":
+            ch.check_object_store(ha, hb)
+        else:
+            ch.check_object_store(model.DictObjectStore([ha]), model.DictObjectStore([hb]))
+    except Exception as e:
+        return ["raise", type(e).__name__]
+    return not any(True for _ in ch.failed_checks)
+
+
+def keyed_line(T, kind, lc, ha, hb):
+    """members in the order in which the holders iterate them (that is the order the checker sees)"""
+    def pairs(h):
+        if kind == "store":
+            it, key = list(h), (lambda x: x.id)
+        elif kind == "qual":
+            it, key = list(h.qualifier), (lambda x: x.type)
+        elif kind == "smc":
+            it, key = list(h.get_referable("c").value), (lambda x: x.id_short)
+        else:
+            it, key = list(h.submodel_element), (lambda x: x.id_short)
+        return [[key(x), T.sort_unordered(T.to_val(x))] for x in it]
+    return ["keyed", lc, pairs(ha), pairs(hb)]
 
 
 # ----------------------------------------------------------------------------------------------- oracle
